@@ -496,7 +496,8 @@ macros[Profiles.CSS_LEVEL_2] = {
     'generic-voice': r'male|female|child',
     'content': r'{string}|{uri}|{counter}|attr\({w}{ident}{w}\)|open-quote|close-quote|no-open-quote|no-close-quote',
     'background-attrs': r'{background-color}|{background-image}|{background-repeat}|{background-attachment}|{background-position}',  # noqa
-    'list-attrs': r'{list-style-type}|{list-style-position}|{list-style-image}',
+    # (none and inherit of list-style-image are alternatives of list-style-type)
+    'list-attrs': r'{list-style-type}|{list-style-position}|{uri}',
     'font-attrs': r'{font-style}|{font-variant}|{font-weight}',
     'text-attrs': r'underline|overline|line-through|blink',
     'overflow': r'visible|hidden|scroll|auto|inherit',
